@@ -139,6 +139,8 @@ class Unit:
         self.stubbed = []        # fns emitted as external_body stubs with contracts
         self.header_uses = ['use vstd::prelude::*;']
         self.active = None       # set of sub-unit names whose bodies are verified (None = all)
+        self.fn_files = []       # source files functions were taken from (their top-level consts are extracted automatically)
+        self.const_names = set()
 
     # ---------- raw text ----------
     def add(self, text):
@@ -161,6 +163,8 @@ class Unit:
     def item(self, rel, kind, name, impl=None, mod=None, pub_fields=True, post=None):
         """extract + clean a non-function item (struct/enum/const/type)."""
         text, prov = self.raw(rel, kind, name, impl, mod)
+        if kind == 'const':
+            self.const_names.add(name)
         stats = Counter()
         text = rules.clean_source(text, stats, features=self.features)
         if kind == 'struct' and pub_fields:
@@ -198,6 +202,8 @@ class Unit:
         pre_rewrite/post_rewrite: [(regex_or_literal, replacement, expected_count)] applied to the cleaned text
                  before/after the generic rules (unit-specific mechanical rewrites, R11/R12/R15/R16)."""
         text, prov = self.raw(rel, 'fn', name, impl, mod)
+        if rel not in self.fn_files and not mod:
+            self.fn_files.append(rel)
         stats = Counter()
         for (pat, rep, cnt) in pre_rewrite or []:
             text = self._rewrite(text, pat, rep, cnt, name, stats)
@@ -321,7 +327,24 @@ class Unit:
         return new
 
     # ---------- output ----------
+    def auto_consts(self):
+        """top-level consts of every file a function was taken from, unless already emitted (a refactor that names a magic
+        number must not push the file outside the extraction)"""
+        out = []
+        for rel in self.fn_files:
+            src = read_src(rel)
+            for it in scan_items(src):
+                if it['kind'] == 'const' and it['name'] not in self.const_names and re.match(r'(pub(\([^)]*\))?\s+)?const\s', src[it['sig']:it['sig'] + 40]):
+                    try:
+                        out.append(self.item(rel, 'const', it['name']))
+                    except Exception:
+                        pass
+        return '\n'.join(out)
+
     def text(self):
+        extra = self.auto_consts()
+        if extra:
+            self.parts.append('// ---- consts picked up automatically from the source files of the extracted functions ----\n' + extra + '\n')
         head = '\n'.join(self.header_uses) + '\n\nverus! {\n\n'
         return head + '\n'.join(self.parts) + '\n} // verus!\n\nfn main() {}\n'
 
